@@ -40,6 +40,7 @@ import (
 )
 
 var formatOf = map[string][]string{
+	"ps1": {},
 	"jar": {"zip"}, "apk": {"zip", "apkblock"}, "vsix": {"zip"}, "appx": {"zip"}, "xap": {"zip"},
 	"pe-dll": {"pe"}, "pe-exe": {"pe"}, "msi": {"cfb"}, "cab": {"cab"}, "macho": {"macho"}, "pkg": {"xar"}, "dmg": {"dmg"},
 	"deb": {"deb"}, "rpm": {"rpm"}, "cat": {"cms"},
@@ -394,9 +395,16 @@ func Run(args []string) {
 	for bi, b := range bases {
 		for _, st := range StreamsOf(b.typ, b.data) {
 			for _, how := range []string{"garble-early", "garble-mid", "suffix"} {
-				d := append([]byte(nil), b.data...)
-				if !st.Apply(d, how) {
-					continue
+				var d []byte
+				if st.Rebuild != nil {
+					if d = st.Rebuild(b.data, how); d == nil {
+						continue
+					}
+				} else {
+					d = append([]byte(nil), b.data...)
+					if !st.Apply(d, how) {
+						continue
+					}
 				}
 				for _, entry := range tb.Entries {
 					n++
@@ -409,6 +417,25 @@ func Run(args []string) {
 				}
 			}
 		}
+	}
+	// a script that begins with its signature block (no text before the marker)
+	{
+		ti := pipelinex.TypeByName("ps1")
+		in := filepath.Join(dir, "sigonly.ps1")
+		src, _ := os.ReadFile(pipelinex.Pkgs + ti.Fixture)
+		os.WriteFile(in, src, 0600)
+		if _, err := pipex.Sign(pipex.SignRequest{Cfg: w.Cfg, Token: w.Token, KeyName: "rsa2048", SigType: ti.SigType, In: in, Out: in, Digest: "sha256"}); err == nil {
+			signedPS, _ := os.ReadFile(in)
+			if i := bytes.Index(signedPS, []byte("# SIG # Begin signature block")); i > 0 {
+				for _, entry := range tb.Entries {
+					n++
+					p := filepath.Join(dir, fmt.Sprintf("sigonly-%d.ps1", n))
+					os.WriteFile(p, signedPS[i:], 0600)
+					cases = append(cases, &caseT{Type: "ps1", Signed: true, Format: "text", Field: "signature block at offset 0", Class: "no-text", Entry: entry, path: p})
+				}
+			}
+		}
+		os.Remove(in)
 	}
 	// run
 	jobs := make(chan *caseT)
